@@ -16,17 +16,22 @@ CONFIG = {
                   "regenerated from exec.rs / wrapper.rs on every run, and a refused operator anywhere outside an EXISTS pattern makes the whole "
                   "query fail (refusal_both). "
                   "The model is tied to the real engine differentially (LightDataset and FastDataset, queries parsed by the real spargebra, "
-                  "0 disagreements required). Sub-selects, BIND or nested GRAPH ?y inside GRAPH ?g, and the value-level expression operators "
+                  "0 disagreements required). The value-level expression layer is proved too (expr_agree): on rows binding regular terms (everything but "
+                  "ill-typed xsd:integer / xsd:boolean literals) every expression of the core except IN (= < > <= >= + - * unary ! && || IF COALESCE "
+                  "BOUND sameTerm STR LANG DATATYPE isIRI isBlank isLiteral) yields the same term, value and effective boolean value, or an error, in "
+                  "both evaluators; hence { BGP FILTER BIND } over regular data equals the algebra with no hypothesis on the expressions "
+                  "(filter_bind_correct); xsd:integer lexical forms are read alike by the transcribed isize/BigInt parsers (integer_lexical). "
+                  "Sub-selects, BIND or nested GRAPH ?y inside GRAPH ?g, IN, ill-typed literals inside expressions, and the value-level operators "
                   "(=, <, >, <=, >=, + - * unary, IN, IF, COALESCE, STR, LANG, DATATYPE), FILTER [NOT] EXISTS and programmatic FROM (named: None) are "
                   "covered by the differential against the executable specification only; five deviations there are known findings with "
                   "kernel-checked witnesses (five more were repaired in /repo: e4da433, d984918, 417c435, 8d7de80, f106847; their inputs stay in corpus/C13).",
     "level_note": "Trusted: the transcription of SPARQL 1.1 sections 17/18 (SparqlSpec.lean); the hand-written implementation model "
                   "(Sparql.lean) up to the differential; spargebra; the in-memory store as a quad set (C01). eval_correct is _partial: it "
-                  "excludes sub-selects, restricts what may stand inside GRAPH ?g, and assumes ExprOK (proved for BOUND/sameTerm/isIRI/isBlank/isLiteral closed under !, ||, &&); "
+                  "excludes sub-selects, restricts what may stand inside GRAPH ?g, and assumes ExprOK for expressions under UNION/GRAPH/modifiers (proved outright for BGP+FILTER+BIND over regular data, and for the term-level class everywhere); "
                   "the unrestricted statement is refuted (evalCorrectFull_refuted). Row order is not modelled (OFFSET/LIMIT: size + containment).",
     "tables": ["sparql_dispatch"],
     "lean_targets": ["SophiaProofs.Props.C13", "SophiaProofs.Audit.C13"],
-    "theorems": ['bgp_correct', 'bgp_multiset', 'single_graph_nodup', 'body_correct', 'graph_var_correct', 'ask_graph_var_correct', 'eval_correct_partial', 'ask_correct', 'slice_sound', 'dispatch_total', 'unsupported_err', 'fragment_refused', 'dispatch_model', 'query_dispatch', 'refusal_both', 'exists_refused', 'gen_flags', 'no_panic', 'exprOK_termlevel', 'or_and_tables', 'evalD_none', 'evalCorrectFull_refuted', 'dev_graph_prebind', 'dev_proj_leak', 'dev_ebv_illtyped', 'dev_in_strict', 'dev_from_unmerged', 'fixed_empty_named', 'fixed_or_strict', 'fixed_if_ebv', 'fixed_neg_min', 'fixed_exists_swallow'],
+    "theorems": ['bgp_correct', 'bgp_multiset', 'single_graph_nodup', 'body_correct', 'graph_var_correct', 'ask_graph_var_correct', 'eval_correct_partial', 'ask_correct', 'slice_sound', 'dispatch_total', 'unsupported_err', 'fragment_refused', 'dispatch_model', 'query_dispatch', 'refusal_both', 'exists_refused', 'gen_flags', 'no_panic', 'exprOK_termlevel', 'or_and_tables', 'expr_agree', 'expr_agree_hyps_needed', 'filter_bind_agree', 'integer_lexical', 'filter_bind_correct', 'evalD_none', 'evalCorrectFull_refuted', 'dev_graph_prebind', 'dev_proj_leak', 'dev_ebv_illtyped', 'dev_in_strict', 'dev_from_unmerged', 'fixed_empty_named', 'fixed_or_strict', 'fixed_if_ebv', 'fixed_neg_min', 'fixed_exists_swallow'],
     "native_ok": [],
     "trivial_re": r"^skip|errclass=notimpl|rows=0/|^errclass=none ask=0",
     "rule": "per run: ~100 fixed SPARQL texts (every unsupported operator: OPTIONAL, MINUS, VALUES, aggregates/GROUP BY/HAVING, paths, "
